@@ -767,55 +767,94 @@ class Budget:
     return self.left > 0 and time.time() < self.deadline
 
 
+def _remove_chunk(src, li, lo, hi):
+  """source with statements lo..hi-1 of the li-th statement list removed (None if it cannot be built)"""
+  t2 = ast.parse(src)
+  lists = list(_stmt_lists(t2))
+  if li >= len(lists):
+    return None
+  node, f = lists[li]
+  body = getattr(node, f)
+  if hi > len(body) or lo >= hi:
+    return None
+  del body[lo:hi]
+  if not body:
+    if f != "body":
+      pass
+    else:
+      body.append(ast.Pass())
+  try:
+    return ast.unparse(ast.fix_missing_locations(t2)) + "\n"
+  except Exception:  # pylint: disable=broad-except
+    return None
+
+
+def _inline_compound(src, li, i):
+  """the i-th statement of the li-th list (an if / try) replaced by its own body"""
+  t2 = ast.parse(src)
+  lists = list(_stmt_lists(t2))
+  if li >= len(lists):
+    return None
+  node, f = lists[li]
+  body = getattr(node, f)
+  if i >= len(body) or not isinstance(body[i], (ast.If, ast.Try)):
+    return None
+  body[i:i + 1] = body[i].body
+  try:
+    return ast.unparse(ast.fix_missing_locations(t2)) + "\n"
+  except Exception:  # pylint: disable=broad-except
+    return None
+
+
 def minimise(src, pred, budget):
+  """delta debugging over every statement list: remove chunks of decreasing size while `pred` stays true"""
   if not isinstance(budget, Budget):
     budget = Budget(int(budget * 8), budget * 4)
+
+  def attempt(cand):
+    if cand is None or not budget.spend():
+      return False
+    try:
+      return bool(pred(cand))
+    except Exception:  # pylint: disable=broad-except
+      return False
+
   changed = True
   while changed and budget.ok():
     changed = False
-    tree = ast.parse(src)
-    lists = list(_stmt_lists(tree))
-    for li, (node, f) in enumerate(lists):
-      n = len(getattr(node, f))
-      for i in range(n - 1, -1, -1):
-        if not budget.spend():
-          return src
-        t2 = ast.parse(src)
-        node2, f2 = list(_stmt_lists(t2))[li]
-        body = getattr(node2, f2)
-        if i >= len(body):
-          continue
-        removed = body.pop(i)
-        if not body:
-          if f2 == "body":
-            body.append(ast.Pass())
-        # replace an if / try by its first body as an alternative reduction
-        try:
-          cand = ast.unparse(ast.fix_missing_locations(t2)) + "\n"
-          ok = pred(cand)
-        except Exception:  # pylint: disable=broad-except
-          ok = False
-        if ok:
-          src = cand
-          changed = True
-          break
-        if isinstance(removed, (ast.If, ast.Try)):
-          t3 = ast.parse(src)
-          node3, f3 = list(_stmt_lists(t3))[li]
-          body3 = getattr(node3, f3)
-          old = body3[i]
-          body3[i:i + 1] = old.body
-          try:
-            cand = ast.unparse(ast.fix_missing_locations(t3)) + "\n"
-            ok = pred(cand)
-          except Exception:  # pylint: disable=broad-except
-            ok = False
-          if ok:
-            src = cand
-            changed = True
-            break
-      if changed:
+    li = 0
+    while budget.ok():
+      lists = list(_stmt_lists(ast.parse(src)))
+      if li >= len(lists):
         break
+      n = len(getattr(*lists[li]))
+      size = max(1, n // 2)
+      while size >= 1 and budget.ok():
+        lo = 0
+        progressed = False
+        while budget.ok():
+          lists = list(_stmt_lists(ast.parse(src)))
+          if li >= len(lists):
+            break
+          n = len(getattr(*lists[li]))
+          if lo >= n:
+            break
+          cand = _remove_chunk(src, li, lo, min(n, lo + size))
+          if cand is not None and cand != src and attempt(cand):
+            src = cand
+            changed = progressed = True
+          else:
+            if size == 1:
+              cand = _inline_compound(src, li, lo)
+              if cand is not None and cand != src and attempt(cand):
+                src = cand
+                changed = progressed = True
+                continue
+            lo += size
+        if size == 1:
+          break
+        size = size // 2
+      li += 1
   return src
 
 
